@@ -45,15 +45,14 @@ def frontend():
     goext("frontend", "Frontend.lean")
 
 
-<<<<<<< HEAD
 def c11():
     """C11: schema, copy table, structural/semantic branch tables, indexed-write/append facts (goext mode c11)."""
     goext("c11", "C11.lean")
-=======
+
+
 def visitors():
     """listener protocol table (push/pop actions with guards per visitor type and rule), C08/C07"""
     goext("visitors", "Visitors.lean")
->>>>>>> build-c07
 
 
 def witness(script, outname, build_first):
@@ -69,7 +68,6 @@ def witness(script, outname, build_first):
     open(os.path.join(GEN, outname), "w").write(p.stdout)
 
 
-<<<<<<< HEAD
 def schema():
     """drivers/pg/query/sql/schema_up.sql -> Generated/Schema.lean (tables, composite types, functions)."""
     _rm("Schema.lean")
@@ -77,7 +75,8 @@ def schema():
                   os.path.join(REPO, "drivers", "pg", "query", "sql", "schema_up.sql"), os.path.join(GEN, "Schema.lean")], timeout=120)
     if rc != 0:
         raise RuntimeError("schema.py failed: " + out[-1500:])
-=======
+
+
 def c06_sites():
     """Scope access sites of cypher/models/pgsql/translate with the provenance of their identifier argument."""
     goext("c06", "C06Sites.lean")
@@ -103,4 +102,3 @@ def gotyped(mode, outname):
 def c05_facts():
     """map ranges (typed), parameter-map copy, query uses, walk.Generic shape, kind mapper lock table."""
     gotyped("c05", "C05_ranges.lean")
->>>>>>> build-c05
